@@ -18,6 +18,7 @@ import (
 
 	req "github.com/imroc/req/v3"
 	"github.com/imroc/req/v3/internal/testcert"
+	"github.com/quic-go/quic-go"
 	qh3 "github.com/quic-go/quic-go/http3"
 )
 
@@ -152,9 +153,20 @@ type h3origin struct {
 	pc     net.PacketConn
 	mu     sync.Mutex
 	script *h3script
+	held   chan struct{} // a "/hold" request has reached the handler
+	free   chan struct{} // closed: the held request may finish
 }
 
 func (o *h3origin) serve(w http.ResponseWriter, r *http.Request) {
+	if r.URL.Path == "/hold" {
+		close(o.held)
+		select {
+		case <-o.free:
+		case <-time.After(60 * time.Second):
+		}
+		w.Write([]byte("held"))
+		return
+	}
 	if r.URL.Path != "/x" {
 		io.Copy(io.Discard, r.Body)
 		body := "follow-up"
@@ -230,7 +242,7 @@ func (o *h3origin) serve(w http.ResponseWriter, r *http.Request) {
 	ack(4)
 }
 
-func startH3Origin() (*h3origin, error) {
+func startH3Origin(maxStreams ...int64) (*h3origin, error) {
 	cert, err := tls.X509KeyPair(testcert.LocalhostCert, testcert.LocalhostKey)
 	if err != nil {
 		return nil, err
@@ -239,10 +251,13 @@ func startH3Origin() (*h3origin, error) {
 	if err != nil {
 		return nil, err
 	}
-	o := &h3origin{pc: pc}
+	o := &h3origin{pc: pc, held: make(chan struct{}), free: make(chan struct{})}
 	o.srv = &qh3.Server{
 		TLSConfig: qh3.ConfigureTLSConfig(&tls.Config{Certificates: []tls.Certificate{cert}}),
 		Handler:   http.HandlerFunc(o.serve),
+	}
+	if len(maxStreams) > 0 {
+		o.srv.QUICConfig = &quic.Config{MaxIncomingStreams: maxStreams[0]}
 	}
 	go o.srv.Serve(pc)
 	return o, nil
@@ -255,7 +270,8 @@ type h3spec struct {
 	Reuse    bool   `json:"reuse,omitempty"`
 	Upload   bool   `json:"upload,omitempty"`
 	Bodiless bool   `json:"bodiless,omitempty"`
-	BadHost  bool   `json:"bad_host,omitempty"` // SendRequestHeader fails (no injection): is the body closed?
+	BadHost  bool   `json:"bad_host,omitempty"`     // SendRequestHeader fails (no injection): is the body closed?
+	Limit    bool   `json:"stream_limit,omitempty"` // the peer allows one request stream and a held request uses it: OpenStreamSync waits
 }
 
 type h3obs struct {
@@ -290,10 +306,12 @@ type h3obs struct {
 }
 
 type h3run struct {
-	spec h3spec
-	gate *udpGate
-	sc   *h3script
-	call *call
+	origin      *h3origin
+	blockerDone chan struct{}
+	spec        h3spec
+	gate        *udpGate
+	sc          *h3script
+	call        *call
 }
 
 type h3step struct {
@@ -322,8 +340,25 @@ func h3steps(sp h3spec) []h3step {
 	if sp.Reuse {
 		arrive = []string{"ZHdrSent"}
 	}
+	if sp.Limit {
+		st = append(st, h3step{"waiting for a request stream (the peer's stream limit is used up)", nil, func(r *h3run) error {
+			if !settle(func() bool { return countFrames(libGoroutines(), "openRequestStream") > 0 }) {
+				return errors.New("the request is not waiting for a stream")
+			}
+			select {
+			case <-r.sc.arrived:
+				return errors.New("the request reached the handler although the stream limit was used up")
+			default:
+			}
+			return nil
+		}})
+		arrive = []string{"ZStreamGranted", "ZHdrSent"}
+	}
 	st = append(st, h3step{"connection ready, request headers arrived", arrive, func(r *h3run) error {
 		r.gate.setHold(false)
+		if err := r.finishBlocker(); err != nil {
+			return err
+		}
 		return waitAck(r.sc.arrived, "the request did not reach the handler")
 	}})
 	if sp.Upload {
@@ -370,6 +405,18 @@ func h3steps(sp h3spec) []h3step {
 	return st
 }
 
+func (r *h3run) finishBlocker() error {
+	if r.blockerDone == nil {
+		return nil
+	}
+	select {
+	case <-r.origin.free:
+	default:
+		close(r.origin.free)
+	}
+	return waitCh(r.blockerDone, "the held request did not finish")
+}
+
 func cause3(kind string) string {
 	switch kind {
 	case "cancel":
@@ -397,7 +444,11 @@ func runH3(sp h3spec, kind string, pos int, racy bool) (o h3obs) {
 			o.Harness = fmt.Sprint("panic: ", p)
 		}
 	}()
-	origin, err := startH3Origin()
+	var lim []int64
+	if sp.Limit {
+		lim = []int64{1}
+	}
+	origin, err := startH3Origin(lim...)
 	if err != nil {
 		o.Harness = err.Error()
 		return
@@ -410,7 +461,7 @@ func runH3(sp h3spec, kind string, pos int, racy bool) (o h3obs) {
 	}
 	defer gate.close()
 	respBody := bytes.Repeat([]byte("0123456789"), respBodyLen/10)
-	r := &h3run{spec: sp, gate: gate, sc: newH3Script(sp.Upload, sp.Bodiless, respBody)}
+	r := &h3run{origin: origin, spec: sp, gate: gate, sc: newH3Script(sp.Upload, sp.Bodiless, respBody)}
 	origin.script = r.sc
 	defer r.sc.openAll()
 	c := req.C().DisableAutoDecode().EnableInsecureSkipVerify().EnableForceHTTP3().SetTimeout(0)
@@ -420,7 +471,19 @@ func runH3(sp h3spec, kind string, pos int, racy bool) (o h3obs) {
 	}
 	base := "https://" + gate.addr()
 
-	if sp.Reuse {
+	if sp.Limit { // a held request uses the only request stream the peer allows
+		r.blockerDone = make(chan struct{})
+		go func() {
+			defer close(r.blockerDone)
+			c.R().SetContext(context.Background()).Get(base + "/hold")
+		}()
+		select {
+		case <-origin.held:
+		case <-time.After(stepWait):
+			o.Harness = "the held request did not reach the handler"
+			return
+		}
+	} else if sp.Reuse {
 		resp, err := c.R().SetContext(context.Background()).Get(base + "/warm")
 		if err != nil || resp.String() != "warm" {
 			o.Harness = fmt.Sprint("warm-up failed: ", err)
@@ -552,6 +615,9 @@ func runH3(sp h3spec, kind string, pos int, racy bool) (o h3obs) {
 
 	// ----- epilogue -----
 	gate.setHold(false)
+	if err := r.finishBlocker(); err != nil {
+		o.Harness = "epilogue: " + err.Error()
+	}
 	select {
 	case <-r.sc.arrived:
 		o.Arrived = true
